@@ -985,7 +985,7 @@ impl Rt {
             for part in path {
                 new_scope = self
                     .type_checker
-                    .get_scope_of(scope, part.into())
+                    .get_scope_of(new_scope, part.into())
                     .ok_or_else(|| RegistrationError {
                         message: format!("Could not get scope of {}", part),
                         location: use_item.location.clone(),
